@@ -83,6 +83,21 @@ class MethodTask(T.Task):
     def spec(self, I, inp):
         return I.call(G.EXACT[self.m], [inp["a"]], {})
 
+    def extra_obligations(self, I, inp, code_paths):
+        """band methods: the verdict function implemented today is pinned (kind 'pin': a refutation means the code moved
+        inside the band -> undecided)"""
+        if self.m not in G.PIN:
+            return []
+        out = []
+        for i, p in enumerate(code_paths):
+            o = self.observe(I, p)
+            if isinstance(o, T.Escape):
+                continue
+            want, _ = T.spec_formula(I, G.PIN[self.m], [inp["a"]], ctx=p["pc"])
+            out.append((f"path {i}: inside the band the verdict is the reading pinned at build time", p["pc"],
+                        T.as_formula(T.obs_eq(I, o, True)) == want, "pin"))
+        return out
+
     def native_code(self, inp):
         o = T.native_obs(self.algo().validate, [inp["a"]], "")
         if isinstance(o, T.ExcTag) and o.name == "InvalidBBANChecksum":
@@ -195,7 +210,9 @@ def main(seed, tier):
         assumptions=[
             "A10 the published Bundesbank rules are as transcribed in contracts/germany.py (from the method "
             "descriptions; sandwich bands 13/63/76 where a clause could not be re-read offline: proved "
-            "lower ⊆ code ⊆ upper, the band between is unspecified)",
+            "lower ⊆ code ⊆ upper, the band between is unspecified; the verdict function implemented inside each band "
+            "is additionally pinned - 13 and 63: the main rule without retry, 76: remainder 10 accepted with check "
+            "digit 0 - so that a tree whose verdict moves inside a band is reported UNDECIDED (exit 2), not passed)",
             "int(str) on ASCII digit strings, str(int) on 0..99, sum/zip/itertools.cycle/reversed as modelled",
         ],
         not_proved_note="per method: validate([a], '') == Bundesbank spec for all ten-digit a and arbitrary initial "
